@@ -1,3 +1,627 @@
+// Package c12: property C12 — a loaded schema can be shared by concurrent
+// goroutines.  Must be built with -race (cmd/vhrace).
+//
+// Scenario of one round (child process, so that race reports do not end the
+// run and can be collected from stderr):
+//
+//   - a root schema S is built from a pool spec (x/c11 pool): all rules and
+//     types added sequentially; its type / rule objects are SHARED objects;
+//   - G ∈ {2,4,8,16,32} goroutines issue random mixes of Check, Validate (own
+//     document object each time), Len, Example, GetAST, UsedUserTypes on S —
+//     the first of them compiles S, the others race to that first use;
+//   - meanwhile other goroutines create further roots, add the SAME type and
+//     rule objects to them (AddType loads the shared type: once-cell race),
+//     compile and use them; and goroutines call Example/Pattern/Len/Check on
+//     the shared regex type objects;
+//   - runtime.Gosched() is injected at random;
+//   - ORACLE: each call must return exactly what the same call returns in a
+//     sequential run on fresh objects (canonical results of x/c11).
+//
+// Type objects involved in an allOf expansion (the type uses allOf, or the
+// root using them has an allOf rule that names them) are rewritten in place
+// by every root's compile: sharing those between roots is the known finding
+// K-C12-allof and happens only in the stream `--with-known` (separate child;
+// all its failures carry Class "K-C12-allof").
 package c12
 
-func Run(args []string) {}
+import (
+	"fmt"
+	"math/rand"
+	"runtime"
+	"strings"
+	"sync"
+	"time"
+	"unsafe"
+
+	root "github.com/jsightapi/jsight-schema-go-library"
+	"github.com/jsightapi/jsight-schema-go-library/formats/json"
+	"github.com/jsightapi/jsight-schema-go-library/notations/jschema"
+	"github.com/jsightapi/jsight-schema-go-library/notations/regex"
+	"github.com/jsightapi/jsight-schema-go-library/rules/enum"
+
+	"verifharness/vh"
+	"verifharness/x/c11"
+	"verifharness/x/racekit"
+)
+
+// ---------------------------------------------------------------- operations
+
+const (
+	opCheck = iota
+	opValidate
+	opLen
+	opExample
+	opAST
+	opUsed
+	nSchemaOps
+)
+
+var opName = []string{"Check", "Validate", "Len", "Example", "GetAST", "UsedUserTypes"}
+
+func opKey(code, doc int) string {
+	if code == opValidate {
+		return fmt.Sprintf("Validate(doc%d)", doc)
+	}
+	return opName[code] + "()"
+}
+
+// observe performs one call on s and returns its canonical result; for
+// Example it also returns the slice handed out, for GetAST two addresses that
+// identify the compiled AST.
+func observe(s *jschema.Schema, code, doc int) (res string, bytes []byte, ident [2]uintptr) {
+	defer func() {
+		if r := recover(); r != nil {
+			res = fmt.Sprintf("PANIC %v", r)
+		}
+	}()
+	switch code {
+	case opCheck:
+		return c11.CanonErr(s.Check()), nil, ident
+	case opValidate:
+		return c11.CanonErr(s.Validate(json.New("doc", c11.Docs[doc]))), nil, ident
+	case opLen:
+		n, err := s.Len()
+		return fmt.Sprintf("%d %s", n, c11.CanonErr(err)), nil, ident
+	case opExample:
+		b, err := s.Example()
+		return fmt.Sprintf("%q %s", b, c11.CanonErr(err)), b, ident
+	case opAST:
+		a, err := s.GetAST()
+		if err == nil {
+			ident[0] = uintptr(unsafe.Pointer(a.Rules))
+			if len(a.Children) > 0 {
+				ident[1] = uintptr(unsafe.Pointer(&a.Children[0]))
+			}
+		}
+		return c11.CanonPtr(c11.ASTJSON(a)) + " " + c11.CanonErr(err), nil, ident
+	default:
+		u, err := s.UsedUserTypes()
+		return c11.CanonPtr(strings.Join(u, ",")) + " " + c11.CanonErr(err), nil, ident
+	}
+}
+
+var regexOpName = []string{"Check", "Len", "Pattern", "Example", "GetAST"}
+
+func observeRegex(x *regex.Schema, code int) (res string) {
+	defer func() {
+		if r := recover(); r != nil {
+			res = fmt.Sprintf("PANIC %v", r)
+		}
+	}()
+	switch code {
+	case 0:
+		return c11.CanonErr(x.Check())
+	case 1:
+		n, err := x.Len()
+		return fmt.Sprintf("%d %s", n, c11.CanonErr(err))
+	case 2:
+		p, err := x.Pattern()
+		return fmt.Sprintf("%q %s", p, c11.CanonErr(err))
+	case 3:
+		b, err := x.Example()
+		return fmt.Sprintf("%q %s", b, c11.CanonErr(err))
+	default:
+		a, err := x.GetAST()
+		return c11.ASTJSON(a) + " " + c11.CanonErr(err)
+	}
+}
+
+// ---------------------------------------------------------------- building
+
+// shared holds the objects that several roots of a round may add.
+type shared struct {
+	types map[[2]int]interface{} // (kind, spec) -> *jschema.Schema | *regex.Schema
+	enums map[int]*enum.Enum
+}
+
+func newTypeObject(kind, spec int) interface{} {
+	if kind == c11.KRegex {
+		return regex.New("rx", c11.Regexes[spec])
+	}
+	s := jschema.New(c11.Schemas[spec].ID, c11.Schemas[spec].Text)
+	// the type's own set-up (its rules and types are private fresh objects)
+	setup(s, c11.Schemas[spec], nil, 0, nil)
+	return s
+}
+
+// setup performs the spec's AddRule / AddType calls on s. sh == nil or
+// pShare == 0: every added object is fresh.  Returns the canonical results.
+func setup(s *jschema.Schema, spec c11.SchemaSpec, sh *shared, pShare float64, r *rand.Rand) []string {
+	var out []string
+	yield := func() {
+		if r != nil && r.Intn(2) == 0 {
+			runtime.Gosched()
+		}
+	}
+	for _, rr := range spec.Rules {
+		var e *enum.Enum
+		if sh != nil && r.Float64() < pShare {
+			e = sh.enums[rr.Enum]
+		}
+		if e == nil {
+			e = enum.New("en", c11.Enums[rr.Enum])
+		}
+		yield()
+		out = append(out, vh.Recover(func() string { return c11.CanonErr(s.AddRule(rr.Name, e)) }))
+	}
+	for _, tr := range spec.Types {
+		var t interface{}
+		switch {
+		case tr.Kind == c11.KSelf:
+			t = s
+		case sh != nil && r.Float64() < pShare && sh.types[[2]int{tr.Kind, tr.Spec}] != nil:
+			t = sh.types[[2]int{tr.Kind, tr.Spec}]
+		default:
+			t = newTypeObject(tr.Kind, tr.Spec)
+		}
+		yield()
+		out = append(out, vh.Recover(func() string { return c11.CanonErr(s.AddType(tr.Name, t.(root.Schema))) }))
+	}
+	return out
+}
+
+// allOfInvolved: the spec's type objects take part in an allOf expansion.
+func allOfInvolved(spec c11.SchemaSpec) bool {
+	if spec.UsesAllOf() {
+		return true
+	}
+	for _, tr := range spec.Types {
+		if tr.Kind == c11.KSchema && c11.Schemas[tr.Spec].UsesAllOf() {
+			return true
+		}
+	}
+	return false
+}
+
+// ---------------------------------------------------------------- oracle
+
+type want struct {
+	setup []string
+	ops   map[string]string
+}
+
+// oracle: sequential run on fresh objects, one spec at a time.
+func oracle(spec c11.SchemaSpec) want {
+	s := jschema.New(spec.ID, spec.Text)
+	w := want{ops: map[string]string{}}
+	w.setup = setup(s, spec, nil, 0, nil)
+	for code := 0; code < nSchemaOps; code++ {
+		if code == opValidate {
+			continue
+		}
+		// each op on its own fresh object as well as in sequence must agree (C11); take the fresh one
+		f := jschema.New(spec.ID, spec.Text)
+		setup(f, spec, nil, 0, nil)
+		res, _, _ := observe(f, code, 0)
+		w.ops[opKey(code, 0)] = res
+		if seq, _, _ := observe(s, code, 0); seq != res {
+			panic(fmt.Sprintf("c12 oracle: sequential run not history-independent for %s %s: %q vs %q", spec.ID, opKey(code, 0), seq, res))
+		}
+	}
+	for d := range c11.Docs {
+		res, _, _ := observe(s, opValidate, d)
+		w.ops[opKey(opValidate, d)] = res
+	}
+	return w
+}
+
+func regexOracle(i int) []string {
+	var out []string
+	for code := range regexOpName {
+		out = append(out, observeRegex(regex.New("rx", c11.Regexes[i]), code))
+	}
+	return out
+}
+
+// ---------------------------------------------------------------- a round
+
+type collector struct {
+	mu  sync.Mutex
+	res *racekit.ChildResult
+}
+
+func (c *collector) diff(d vh.Diff) {
+	c.mu.Lock()
+	c.res.AddDiff(d)
+	c.mu.Unlock()
+}
+func (c *collector) stat(s string) {
+	c.mu.Lock()
+	c.res.Stats[s]++
+	c.mu.Unlock()
+}
+
+// hammer issues n random operations on s and compares with w.
+func hammer(col *collector, r *rand.Rand, s *jschema.Schema, spec c11.SchemaSpec, w want, n int, where string, idents chan<- [2]uintptr) {
+	var prev []byte
+	prevWant := ""
+	for i := 0; i < n; i++ {
+		code := []int{opCheck, opValidate, opValidate, opValidate, opLen, opExample, opExample, opAST, opUsed}[r.Intn(9)]
+		doc := r.Intn(len(c11.Docs))
+		got, b, id := observe(s, code, doc)
+		k := opKey(code, doc)
+		if got != w.ops[k] {
+			col.diff(vh.Diff{Component: "C12-result", Input: fmt.Sprintf("%s; spec %s = %q (set-up %s); call %s%s", where, spec.ID, spec.Text, describeSetup(spec), k, docText(code, doc)),
+				Impl: got, Model: "sequential run on fresh objects: " + w.ops[k]})
+		}
+		col.stat("op_" + opName[code])
+		if code == opAST && idents != nil && id != ([2]uintptr{}) {
+			select {
+			case idents <- id:
+			default:
+			}
+		}
+		if r.Intn(2) == 0 {
+			runtime.Gosched()
+		}
+		// the slice handed out by the previous Example() must still read the same
+		if prev != nil {
+			if now := fmt.Sprintf("%q ok", prev); now != prevWant {
+				col.diff(vh.Diff{Component: "C12-result", Input: fmt.Sprintf("%s; spec %s = %q; byte slice returned by an earlier Example() re-read after a later call", where, spec.ID, spec.Text),
+					Impl: now, Model: prevWant})
+			}
+			prev = nil
+		}
+		if code == opExample && b != nil {
+			prev, prevWant = b, w.ops[k]
+		}
+	}
+}
+
+func docText(code, doc int) string {
+	if code != opValidate {
+		return ""
+	}
+	return fmt.Sprintf(" with doc%d = %q", doc, c11.Docs[doc])
+}
+
+func describeSetup(spec c11.SchemaSpec) string {
+	var sb []string
+	for _, rr := range spec.Rules {
+		sb = append(sb, fmt.Sprintf("AddRule(%q, enum %q)", rr.Name, c11.Enums[rr.Enum]))
+	}
+	for _, tr := range spec.Types {
+		switch tr.Kind {
+		case c11.KSelf:
+			sb = append(sb, fmt.Sprintf("AddType(%q, self)", tr.Name))
+		case c11.KRegex:
+			sb = append(sb, fmt.Sprintf("AddType(%q, regex %q)", tr.Name, c11.Regexes[tr.Spec]))
+		default:
+			sb = append(sb, fmt.Sprintf("AddType(%q, schema %q)", tr.Name, c11.Schemas[tr.Spec].Text))
+		}
+	}
+	return strings.Join(sb, ", ")
+}
+
+// pickSpecs chooses the shared root and the other roots of a round.
+func pickSpecs(r *rand.Rand, known bool) (int, []int) {
+	roots := c11.Roots()
+	var pool []int
+	for _, ri := range roots {
+		if allOfInvolved(c11.Schemas[ri]) == known {
+			pool = append(pool, ri)
+		}
+	}
+	if !known {
+		// the allOf specs take part in the main stream too, but with private type objects
+		pool = roots
+	}
+	s := pool[r.Intn(len(pool))]
+	var others []int
+	for i, n := 0, 1+r.Intn(3); i < n; i++ {
+		o := pool[r.Intn(len(pool))]
+		switch x := r.Intn(10); {
+		case x < 4:
+			o = s
+		case x < 8: // a root that uses one of the same type / rule specs
+			var cands []int
+			for _, ri := range pool {
+				for _, a := range c11.Schemas[ri].Types {
+					for _, b := range c11.Schemas[s].Types {
+						if a.Kind == b.Kind && a.Spec == b.Spec && a.Kind != c11.KSelf {
+							cands = append(cands, ri)
+						}
+					}
+				}
+				for _, a := range c11.Schemas[ri].Rules {
+					for _, b := range c11.Schemas[s].Rules {
+						if a.Enum == b.Enum {
+							cands = append(cands, ri)
+						}
+					}
+				}
+			}
+			if len(cands) > 0 {
+				o = cands[r.Intn(len(cands))]
+			}
+		}
+		others = append(others, o)
+	}
+	return s, others
+}
+
+func runRound(col *collector, round int, known bool, wants map[int]want, rxWants map[int][]string) {
+	salt := int64(12000000)
+	if known {
+		salt = 12500000
+	}
+	r := vh.NewRand(salt + int64(round)*1000)
+	G := []int{2, 4, 8, 16, 32}[round%5]
+	sIdx, others := pickSpecs(r, known)
+	spec := c11.Schemas[sIdx]
+	where := fmt.Sprintf("round %d (vh.NewRand(%d)), %d goroutines on shared root", round, salt+int64(round)*1000, G)
+
+	// shared objects of the round: one per (kind, spec) / enum used by any root of the round
+	sh := &shared{types: map[[2]int]interface{}{}, enums: map[int]*enum.Enum{}}
+	nShared := 0
+	for _, ri := range append([]int{sIdx}, others...) {
+		sp := c11.Schemas[ri]
+		if allOfInvolved(sp) && !known {
+			continue // private type objects for these (K-C12-allof otherwise)
+		}
+		for _, tr := range sp.Types {
+			if tr.Kind != c11.KSelf && sh.types[[2]int{tr.Kind, tr.Spec}] == nil {
+				sh.types[[2]int{tr.Kind, tr.Spec}] = newTypeObject(tr.Kind, tr.Spec)
+				nShared++
+			}
+		}
+		for _, rr := range sp.Rules {
+			if sh.enums[rr.Enum] == nil {
+				sh.enums[rr.Enum] = enum.New("en", c11.Enums[rr.Enum])
+				nShared++
+			}
+		}
+	}
+	pShare := func(sp c11.SchemaSpec) float64 {
+		if allOfInvolved(sp) && !known {
+			return 0
+		}
+		return 0.8
+	}
+	// a stand-alone shared regex object as well
+	rxSpec := r.Intn(len(c11.Regexes))
+	rxObj := regex.New("rx", c11.Regexes[rxSpec])
+
+	// the shared root: all rules and types added BEFORE the goroutines start
+	S := jschema.New(spec.ID, spec.Text)
+	if got := setup(S, spec, sh, pShare(spec)*10, r); strings.Join(got, ",") != strings.Join(wants[sIdx].setup, ",") {
+		col.diff(vh.Diff{Component: "C12-result", Input: where + "; sequential set-up of " + spec.ID + ": " + describeSetup(spec),
+			Impl: strings.Join(got, ","), Model: strings.Join(wants[sIdx].setup, ",")})
+	}
+
+	var wg sync.WaitGroup
+	start := make(chan struct{})
+	idents := make(chan [2]uintptr, 4096)
+	for g := 0; g < G; g++ {
+		wg.Add(1)
+		gr := rand.New(rand.NewSource(r.Int63()))
+		go func() {
+			defer wg.Done()
+			<-start
+			hammer(col, gr, S, spec, wants[sIdx], 6+gr.Intn(8), where, idents)
+		}()
+	}
+	// other roots: created, set up (sharing the type / rule objects), compiled and used concurrently
+	nOther := len(others)
+	if G >= 8 {
+		nOther = len(others) * 2
+	}
+	for j := 0; j < nOther; j++ {
+		wg.Add(1)
+		oi := others[j%len(others)]
+		gr := rand.New(rand.NewSource(r.Int63()))
+		go func() {
+			defer wg.Done()
+			<-start
+			osp := c11.Schemas[oi]
+			o := jschema.New(osp.ID, osp.Text)
+			ow := fmt.Sprintf("round %d, concurrently built root sharing type/rule objects with %s", round, spec.ID)
+			if got := setup(o, osp, sh, pShare(osp), gr); strings.Join(got, ",") != strings.Join(wants[oi].setup, ",") {
+				col.diff(vh.Diff{Component: "C12-result", Input: ow + "; set-up of " + osp.ID + ": " + describeSetup(osp),
+					Impl: strings.Join(got, ","), Model: "sequential run on fresh objects: " + strings.Join(wants[oi].setup, ",")})
+			}
+			hammer(col, gr, o, osp, wants[oi], 4+gr.Intn(6), ow, nil)
+		}()
+	}
+	// goroutines on the shared regex objects
+	var rxs []struct {
+		x    *regex.Schema
+		spec int
+	}
+	rxs = append(rxs, struct {
+		x    *regex.Schema
+		spec int
+	}{rxObj, rxSpec})
+	for k, t := range sh.types {
+		if x, ok := t.(*regex.Schema); ok {
+			rxs = append(rxs, struct {
+				x    *regex.Schema
+				spec int
+			}{x, k[1]})
+		}
+	}
+	for j := 0; j < 2+G/8; j++ {
+		wg.Add(1)
+		gr := rand.New(rand.NewSource(r.Int63()))
+		go func() {
+			defer wg.Done()
+			<-start
+			for i := 0; i < 8; i++ {
+				t := rxs[gr.Intn(len(rxs))]
+				code := []int{0, 1, 2, 3, 3, 3, 4}[gr.Intn(7)]
+				if got := observeRegex(t.x, code); got != rxWants[t.spec][code] {
+					col.diff(vh.Diff{Component: "C12-result", Input: fmt.Sprintf("round %d; shared regex object %q; call %s()", round, c11.Regexes[t.spec], regexOpName[code]),
+						Impl: got, Model: "sequential run on a fresh object: " + rxWants[t.spec][code]})
+				}
+				col.stat("op_regex_" + regexOpName[code])
+				if gr.Intn(2) == 0 {
+					runtime.Gosched()
+				}
+			}
+		}()
+	}
+	close(start)
+	wg.Wait()
+	close(idents)
+	// all goroutines must have seen the same compiled AST object
+	var first [2]uintptr
+	for id := range idents {
+		if first == ([2]uintptr{}) {
+			first = id
+		} else if id != first {
+			col.diff(vh.Diff{Component: "C12-once", Input: where + "; spec " + spec.ID + " = " + fmt.Sprintf("%q", spec.Text),
+				Impl: fmt.Sprintf("GetAST handed out different AST objects: %x vs %x", first, id), Model: "the schema is loaded/compiled exactly once: one AST object"})
+			break
+		}
+	}
+
+	// "first use compiles exactly once": G goroutines released together, all call Check first
+	F := jschema.New(spec.ID, spec.Text)
+	setup(F, spec, nil, 0, nil)
+	results := make([]string, G)
+	ids := make([][2]uintptr, G)
+	start2 := make(chan struct{})
+	for g := 0; g < G; g++ {
+		wg.Add(1)
+		go func(g int) {
+			defer wg.Done()
+			<-start2
+			a, _, _ := observe(F, opCheck, 0)
+			b, _, id := observe(F, opAST, 0)
+			results[g] = a + " / " + b
+			ids[g] = id
+		}(g)
+	}
+	close(start2)
+	wg.Wait()
+	wantFirst := wants[sIdx].ops[opKey(opCheck, 0)] + " / " + wants[sIdx].ops[opKey(opAST, 0)]
+	for g := range results {
+		if results[g] != wantFirst || ids[g] != ids[0] {
+			col.diff(vh.Diff{Component: "C12-once", Input: fmt.Sprintf("round %d; %d goroutines race to the first Check() of fresh %s = %q (set-up %s)", round, G, spec.ID, spec.Text, describeSetup(spec)),
+				Impl:  fmt.Sprintf("goroutine %d: %s (AST object %x; goroutine 0 saw %x)", g, results[g], ids[g], ids[0]),
+				Model: "every goroutine: " + wantFirst + ", one compiled object"})
+			break
+		}
+	}
+
+	key := fmt.Sprintf("round %d G=%d shared=%s others=%v sharedObjects=%d", round, G, spec.ID, specIDs(others), nShared)
+	col.mu.Lock()
+	col.res.Case(key, len(spec.Types)+len(spec.Rules) > 0 || wants[sIdx].ops["Check()"] == "ok")
+	col.res.Stats[fmt.Sprintf("G_%02d", G)]++
+	col.res.Stats["shared_root_"+wants[sIdx].ops["Check()"]]++
+	col.res.Stats[fmt.Sprintf("shared_objects_%d", nShared)]++
+	col.mu.Unlock()
+}
+
+func specIDs(is []int) []string {
+	var out []string
+	for _, i := range is {
+		out = append(out, c11.Schemas[i].ID)
+	}
+	return out
+}
+
+func child(stream string) {
+	res := racekit.NewChildResult()
+	col := &collector{res: res}
+	known := stream == "known"
+	wants := map[int]want{}
+	for _, ri := range c11.Roots() {
+		wants[ri] = oracle(c11.Schemas[ri])
+	}
+	rxWants := map[int][]string{}
+	for i := range c11.Regexes {
+		rxWants[i] = regexOracle(i)
+	}
+	rounds := vh.Pick(60, 1500)
+	if known {
+		rounds = vh.Pick(20, 200)
+	}
+	for round := 0; round < rounds; round++ {
+		done := make(chan struct{})
+		go func() {
+			defer close(done)
+			runRound(col, round, known, wants, rxWants)
+		}()
+		select {
+		case <-done:
+		case <-time.After(60 * time.Second):
+			col.diff(vh.Diff{Component: "C12-result", Input: fmt.Sprintf("round %d of stream %s (VERIF_SEED=%d)", round, stream, vh.Seed()), Impl: "TIMEOUT",
+				Model: "every call returns"})
+			col.mu.Lock()
+			res.Print()
+			col.mu.Unlock()
+			return
+		}
+	}
+	res.Print()
+}
+
+// Run is the command c12-concurrent (cmd/vhrace).  Args: --with-known also
+// runs the K-C12-allof stream (its own child process).
+func Run(args []string) {
+	withKnown := false
+	for i, a := range args {
+		switch a {
+		case "--with-known":
+			withKnown = true
+		case "--child":
+			child(args[i+1])
+			return
+		}
+	}
+	rep := vh.NewReport("c12-concurrent",
+		"rounds: one root schema (pool of x/c11: 33 root texts, valid and invalid, with types / enum rules / regex types) fully set up, then "+
+			"G in {2,4,8,16,32} goroutines issue 6..13 random Check/Validate(own doc)/Len/Example/GetAST/UsedUserTypes calls on it (racing to its "+
+			"first compile) while 1..6 goroutines build, compile and use other roots that add the SAME type and rule objects, and 2..6 goroutines "+
+			"call Example/Pattern/Len/Check on shared regex objects; random Gosched; every result compared with a sequential run on fresh objects; "+
+			"plus G goroutines racing to the first Check of a fresh schema; child process under the race detector. Non-trivial = the shared root "+
+			"has added types/rules or passes Check")
+	if racekit.Enabled {
+		rep.Extra["race_detector"] = "on"
+	} else {
+		rep.Extra["race_detector"] = "OFF: binary built without -race (build cmd/vhrace with CGO_ENABLED=1 go build -race)"
+		rep.Stat("race_detector_off")
+	}
+	runStream := func(stream, class string) {
+		res, races, problem := racekit.RunChild([]string{"c12-concurrent", "--child", stream}, nil, time.Duration(vh.Pick(150, 1200))*time.Second)
+		if res != nil {
+			res.Merge(rep, class)
+		}
+		if problem != "" {
+			rep.AddDiff(vh.Diff{Component: "C12-result", Input: fmt.Sprintf("child run `vhrace c12-concurrent --child %s` with VERIF_SEED=%d", stream, vh.Seed()),
+				Impl: problem, Model: "the concurrent scenario terminates normally", Class: class})
+		}
+		for _, r := range races {
+			rep.AddDiff(vh.Diff{Component: "C12-race", Input: fmt.Sprintf("stream %s of vhrace c12-concurrent, VERIF_SEED=%d (report seen %d times)", stream, vh.Seed(), r.Count),
+				Impl: "DATA RACE: " + r.Text, Model: "no data race", Class: class})
+		}
+		rep.Stats["distinct_race_reports_"+stream] = len(races)
+	}
+	runStream("main", "")
+	if withKnown {
+		runStream("known", "K-C12-allof")
+	}
+	rep.Extra["known_stream"] = fmt.Sprint(withKnown)
+	rep.Finish()
+}
